@@ -170,7 +170,7 @@ theorem hdr_vendorBlocks (f : AngFmt) (ps : List PhaseInfo) (xs : List PhaseX)
 theorem zipPhases_vendor (ids : List Nat) (f : AngFmt) (ps : List PhaseInfo) (xs : List PhaseX)
     (h : List.Forall₂ (BlockOK f) ps xs) (hl : ids.length = ps.length) :
     zipPhases angReader ids (ps.map (·.name)) (xs.map (·.sym)) (ps.map (·.lattice))
-      = some (rekey (ids.map fun i => (i : Int)) ps) := by
+      = some (rekey (ids.map Int.ofNat) ps) := by
   induction h generalizing ids with
   | nil =>
     cases ids with
@@ -188,5 +188,110 @@ theorem zipPhases_vendor (ids : List Nat) (f : AngFmt) (ps : List PhaseInfo) (xs
       simp only [PhaseInfo.mk.injEq] at *
       simp_all [BlockOK.sg hpx, BlockOK.atoms hpx]
       exact ⟨(BlockOK.sg hpx).symm, BlockOK.atoms hpx⟩
+
+theorem rekey_rekey (u v : List Int) (pl : List PhaseInfo) (h1 : u.length = v.length) (h2 : v.length = pl.length) :
+    rekey u (rekey v pl) = rekey u pl := by
+  induction u generalizing v pl with
+  | nil => cases v <;> cases pl <;> simp [rekey] at h1 h2 ⊢
+  | cons a r ih =>
+    cases v with
+    | nil => simp at h1
+    | cons b s =>
+      cases pl with
+      | nil => simp at h2
+      | cons p ps => simp [rekey, ih s ps (by simpa using h1) (by simpa using h2)]
+
+theorem rekey_len (u : List Int) (pl : List PhaseInfo) (h : u.length = pl.length) :
+    (rekey u pl).length = pl.length := by
+  induction u generalizing pl with
+  | nil => cases pl <;> simp [rekey] at h ⊢
+  | cons a r ih =>
+    cases pl with
+    | nil => simp at h
+    | cons p ps => simp [rekey, ih ps (by simpa using h)]
+
+theorem forall₂_len {α β} {R : α → β → Prop} {a : List α} {b : List β} (h : List.Forall₂ R a b) :
+    a.length = b.length := forall₂_length h
+
+theorem findMark_mem (t : ReaderTables) (v : Vendor) (hv : v ≠ .orix) (h : List HLine)
+    (hm : HLine.mark v ∈ h) : findMark t v h = some none := by
+  induction h with
+  | nil => simp at hm
+  | cons x r ih =>
+    by_cases hx : x = HLine.mark v
+    · subst hx; simp [findMark]
+    · have hr : HLine.mark v ∈ r := by
+        rcases List.mem_cons.1 hm with h' | h'
+        · exact absurd h'.symm hx
+        · exact h'
+      have ih' := ih hr
+      cases x <;> simp [findMark, ih', hv]
+
+theorem findMark_absent (t : ReaderTables) (v : Vendor) (h : List HLine)
+    (hm : HLine.mark v ∉ h) (hc : v = .orix → ∀ x ∈ h, isColNames x = false) : findMark t v h = none := by
+  induction h with
+  | nil => rfl
+  | cons x r ih =>
+    have ih' := ih (fun hx => hm (by simp [hx])) (fun hv y hy => hc hv y (by simp [hy]))
+    cases x <;> simp [findMark, ih']
+    · rename_i names
+      intro hv
+      have := hc hv (.columnNames names) (by simp)
+      simp [isColNames] at this
+    · rename_i w
+      intro hw
+      exact absurd (by simp [hw]) hm
+
+/-- lines of a vendor header apart from `.mark` lines: no orix `Column names:` line anywhere -/
+theorem vendorBlocks_lines (f : AngFmt) (ps : List PhaseInfo) (xs : List PhaseX) :
+    ∀ l ∈ vendorBlocks f ps xs, isColNames l = false ∧ (∀ v, l = .mark v → v = .emsoft ∧ f = .emsoft) := by
+  induction ps generalizing xs with
+  | nil => simp [vendorBlocks]
+  | cons p ps ih =>
+    cases xs with
+    | nil => simp [vendorBlocks]
+    | cons x xs =>
+      intro l hl
+      simp only [vendorBlocks, List.mem_append] at hl
+      rcases hl with hl | hl
+      · cases f <;> simp [vendorBlock] at hl <;>
+          rcases hl with rfl | rfl | rfl | rfl | rfl | rfl | rfl <;> simp [isColNames]
+      · exact ih xs l hl
+
+theorem vendorBlocks_mark (ps : List PhaseInfo) (xs : List PhaseX) (hne : ps ≠ []) (hl : ps.length = xs.length) :
+    HLine.mark .emsoft ∈ vendorBlocks .emsoft ps xs := by
+  cases ps with
+  | nil => exact absurd rfl hne
+  | cons p ps =>
+    cases xs with
+    | nil => simp at hl
+    | cons x xs => simp [vendorBlocks, vendorBlock]
+
+theorem blocks_names_astar (ps : List PhaseInfo) (xs : List PhaseX)
+    (h : List.Forall₂ (BlockOK AngFmt.astar) ps xs) : xs.map (fun x => joinSp x.mat) = ps.map (·.name) := by
+  induction h with
+  | nil => rfl
+  | cons hpx _ ih => simp [ih, (by simpa using hpx.name : joinSp _ = _)]
+
+theorem blocks_names_nonempty (f : AngFmt) (hf : f ≠ AngFmt.astar) (ps : List PhaseInfo) (xs : List PhaseX)
+    (h : List.Forall₂ (BlockOK f) ps xs) : ∀ p ∈ ps, p.name ≠ [] := by
+  induction h with
+  | nil => simp
+  | cons hpx _ ih =>
+    intro p hp
+    rcases List.mem_cons.1 hp with rfl | hp
+    · have := hpx.name
+      simpa [hf] using this
+    · exact ih p hp
+
+theorem blocks_ids_nonneg (f : AngFmt) (ps : List PhaseInfo) (xs : List PhaseX)
+    (h : List.Forall₂ (BlockOK f) ps xs) : ∀ p ∈ ps, 0 ≤ p.id := by
+  induction h with
+  | nil => simp
+  | cons hpx _ ih =>
+    intro p hp
+    rcases List.mem_cons.1 hp with rfl | hp
+    · exact hpx.id
+    · exact ih p hp
 
 end Orix.Codec.Ang
